@@ -308,3 +308,71 @@ pub fn c16_cases(rng: &mut Rng, tier: &str, out: &mut Out) {
         out.raw(&case);
     }
 }
+
+/// C12 through the command-line extractor: archives of MANY interleaved files (more than the
+/// extractor's pool of open file writers) extracted in the whole-archive (linear) form must give
+/// each file exactly the bytes per-file reading gives.
+pub fn c12_cli_cases(rng: &mut Rng, tier: &str, out: &mut Out) {
+    use mla::ArchiveWriter;
+    let counts: Vec<usize> = if tier == "thorough" { vec![3, 999, 1000, 1001, 1500, 2500] } else { vec![3, 1001, 1300] };
+    let work = std::env::current_dir().unwrap();
+    for (k, n) in counts.iter().enumerate() {
+        let mut msg: Option<String> = None;
+        let layers = if k % 2 == 0 { Layers::EMPTY } else { Layers::COMPRESS };
+        let mut cfg = ArchiveWriterConfig::new();
+        cfg.set_layers(layers);
+        let mut w = ArchiveWriter::from_config(Vec::new(), cfg).expect("writer");
+        let names: Vec<String> = (0..*n).map(|i| format!("d{}/f{i}", i % 7)).collect();
+        let parts = rng.range(2, 3) as usize;
+        let ids: Vec<u64> = names.iter().map(|nm| w.start_file(nm).unwrap()).collect();
+        let mut contents: Vec<Vec<u8>> = vec![Vec::new(); *n];
+        for p in 0..parts {
+            for i in 0..*n {
+                let piece: Vec<u8> = format!("<{i}:{p}:{}>", "x".repeat((i * 7 + p) % 23)).into_bytes();
+                w.append_file_content(ids[i], piece.len() as u64, piece.as_slice()).unwrap();
+                contents[i].extend_from_slice(&piece);
+            }
+        }
+        for id in ids {
+            w.end_file(id).unwrap();
+        }
+        w.finalize().unwrap();
+        let archive = w.into_raw();
+        let sb = work.join(format!("c12cli{k}"));
+        let _ = fs::remove_dir_all(&sb);
+        fs::create_dir_all(&sb).unwrap();
+        fs::write(sb.join("a.mla"), &archive).unwrap();
+        let o = Command::new(mlar_bin()).current_dir(&sb).arg("extract").arg("-i").arg("a.mla").arg("-o").arg("out").output().expect("run mlar");
+        if !o.status.success() {
+            msg = Some(format!("mlar extract of {n} interleaved files failed: {}", String::from_utf8_lossy(&o.stderr).chars().take(200).collect::<String>()));
+        } else {
+            let mut bad = 0usize;
+            let mut first = None;
+            for (i, nm) in names.iter().enumerate() {
+                let got = fs::read(sb.join("out").join(nm)).unwrap_or_default();
+                if got != contents[i] {
+                    bad += 1;
+                    if first.is_none() {
+                        first = Some((nm.clone(), got.len(), contents[i].len()));
+                    }
+                }
+            }
+            if bad > 0 {
+                let (nm, g, e) = first.unwrap();
+                msg = Some(format!("whole-archive extraction of {n} interleaved files: {bad} files differ from their content, e.g. {nm}: {g} bytes extracted, {e} written"));
+            }
+        }
+        let _ = fs::remove_dir_all(&sb);
+        out.case(&Case {
+            id: format!("c12-cli-{n}"),
+            model_fn: "",
+            args: vec![],
+            imp: json!([]),
+            oracle_ok: msg.is_none(),
+            oracle_msg: msg.unwrap_or_default(),
+            class: format!("cli-linear files={} layers={}", if *n > 1000 { ">1000" } else { "<=1000" }, k % 2 * 2),
+            nontrivial: true,
+            meta: json!({"files": n, "parts": parts}),
+        });
+    }
+}
